@@ -111,7 +111,15 @@ func (d *Decoder) Decode(bts []byte) (interface{}, error) {
 }
 
 //ReadObject read new object from reader
-func (d *Decoder) ReadObject() (interface{}, error) {
+func (d *Decoder) ReadObject() (data interface{}, err error) {
+	// damaged input, or a type map that does not fit the input, surfaces deep inside reflect as a
+	// panic (assigning a string to a struct field, hashing a list used as a map key, ...): the
+	// caller gets an error, a bad frame must not take the process down
+	defer func() {
+		if r := recover(); r != nil {
+			data, err = nil, newCodecError("ReadObject", "invalid input: %v", r)
+		}
+	}()
 	return EnsureInterface(d.ReadData())
 }
 
